@@ -59,6 +59,11 @@ RESTS = [
     ("Z.head(2, compute=False)", "head"),
     ("Z.repartition(npartitions=1)", "repartition"),
     ("Z.merge(R, on='a')", "merge"),
+    # partition selections on the re-imported collection (reordered / repeated selections have no sorted index ranges)
+    ("Z.partitions[[1, 0]]", "partitions-reorder"),
+    ("Z.partitions[[1, 1]]", "partitions-repeat"),
+    ("Z.partitions[[0]] + 1", "partitions-first"),
+    ("Z.tail(1, compute=False)", "tail"),
     ("Z.count()", "count"),
     ("Z.to_frame()", "to_frame"),
     ("(Z * 2).max()", "mul-max"),
@@ -79,14 +84,14 @@ def configs(tier, cuts=("persist", "delayed", "legacy", "inplace")):
             for rtext, rtag in RESTS:
                 if rtag.startswith("mix-") and (htag not in MIX_HEADS or (rtag == "mix-filter" and not htag.startswith("scalar"))):
                     continue
-                if htag == "set_index" and rtag == "head":
+                if htag == "set_index" and rtag in ("head", "tail"):
                     # head() reads the first partition(s) only (documented); an optimised / re-imported set_index result keeps its
                     # possibly empty first partition, while the uncut query turns head-of-set_index into a global n-smallest
                     continue
                 for cut in cuts:
                     if cut == "inplace" and (rtag in ("merge", "to_frame") or htag in ("index", "scalar", "scalar-expr")):
                         continue
-                    out.append(dict(head=htext, htag=htag, rest=rtext, rtag=rtag, cut=cut, nrows=nrows, nparts=nparts, ordered=hordered and rtag in ("identity", "add", "filter", "filter-series", "head", "to_frame", "mix-add", "mix-add-mul", "mix-filter")))
+                    out.append(dict(head=htext, htag=htag, rest=rtext, rtag=rtag, cut=cut, nrows=nrows, nparts=nparts, ordered=hordered and rtag in ("identity", "add", "filter", "filter-series", "head", "tail", "partitions-reorder", "partitions-repeat", "partitions-first", "to_frame", "mix-add", "mix-add-mul", "mix-filter")))
     return out
 
 
@@ -223,6 +228,11 @@ def check(c) -> list[Result]:
         if c["cut"] in ("persist", "legacy", "inplace", "optimize", "optimize-nofuse") or head.known_divisions:
             if tuple(q0.divisions) != tuple(q1.divisions):
                 return [Result(name, VIOLATION, name, f"divisions differ: {q0.divisions} vs {q1.divisions}", payload)]
+        # the optimised plans: known divisions are sorted (their values may legitimately be looser bounds than the logical ones)
+        da, db = tuple(a_plan.divisions), tuple(b_plan.divisions)
+        for which, d in (("uncut", da), ("cut", db)):
+            if all(x is not None for x in d) and any(x > y for x, y in zip(d, d[1:])):
+                return [Result(name, VIOLATION, name, f"the optimised {which} plan reports unsorted divisions {d} (logical: {tuple(q1.divisions if which == 'cut' else q0.divisions)})", payload)]
     except Exception as e:
         return [Result(name, SKIPPED, "", f"static comparison failed: {type(e).__name__}: {e}")]
     try:
